@@ -601,12 +601,21 @@ func plan(c *hx.Ctx) *hx.Plan {
 		maxLen = 3
 	}
 	return &hx.Plan{
-		N:   len(js),
-		Job: func(w *hx.Worker, i int) { runJob(w, js[i], maxLen, "") },
+		N: len(js) + 1,
+		Job: func(w *hx.Worker, i int) {
+			if i == len(js) {
+				runSpecial(w)
+				return
+			}
+			runJob(w, js[i], maxLen, "")
+		},
 		Describe: func(i int) string {
+			if i == len(js) {
+				return "special"
+			}
 			return fmt.Sprintf("lexer=%s opts=%s grammar#%d", js[i].k.name, js[i].os.name, js[i].gi)
 		},
-		Rule:   "parsers over {text/scanner, stateful, generated (by the repository's CLI at check time), and the stateful lexer behind three recording Definition wrappers implementing only Lex / +LexString / +LexBytes} x option sets {plain, Elide, Elide+Upper, Elide+Unquote, Elide+Map with a failing mapper} x 10 grammars x lookahead {1,3} x every input up to the length bound over a 10-byte alphabet (incl. unlexable bytes, unterminated strings, comments) x filename {\"\", \"f\"} x AllowTrailing: ParseString, Parse(reader), ParseBytes, ParseFromLexer over the parser's own token stream, and the Trace variants must return identical ASTs and identical errors (text, type, position); the tokens pulled from the definition are identical for every entry point and equal Parser.Lex; Lex/LexString/LexBytes of each definition agree; after ParseFromLexer with trailing input allowed the caller's lexer peeks the first unconsumed token (from the reference semantics)",
+		Rule:   "parsers over {text/scanner, stateful, generated (by the repository's CLI at check time), and the stateful lexer behind three recording Definition wrappers implementing only Lex / +LexString / +LexBytes} x option sets {plain, Elide, Elide+Upper, Elide+Unquote, Elide+Map with a failing mapper} x 10 grammars x lookahead {1,3} x every input up to the length bound over a 10-byte alphabet (incl. unlexable bytes, unterminated strings, comments) x filename {\"\", \"f\"} x AllowTrailing: ParseString, Parse(reader), ParseBytes, ParseFromLexer over the parser's own token stream, and the Trace variants must return identical ASTs and identical errors (text, type, position); the tokens pulled from the definition are identical for every entry point and equal Parser.Lex; Lex/LexString/LexBytes of each definition agree; after ParseFromLexer with trailing input allowed the caller's lexer peeks the first unconsumed token (from the reference semantics). Parse(reader) is also fed readers that are not at their beginning (strings.Reader after Seek, bytes.Reader after ReadByte), a bufio.Reader and a one-byte-at-a-time reader. Special cases: a root type that implements Parseable (lexer position after ParseFromLexer compared with the equivalent struct grammar on all inputs up to length 5) and recursion depth 1..96 with and without Trace",
 		Bounds: map[string]any{"max_input_len": maxLen, "grammars": len(grammars()), "lexers": len(lexKinds()), "option_sets": len(optSets())},
 		Assume: []string{"a Parse that panics identically through every entry point is not this property's violation (C06 judges panics)"},
 	}
